@@ -11,39 +11,108 @@ from ..srcmodel import AnalysisError, call_name, get_arg, norm, own_nodes, param
 @rule("R11", ["C11"], "each documented misuse has a raising guard that dominates the effect it must prevent")
 def r11(cx):
     m = cx.m
-    # ---- allocate_on_buffer
+    # ---- allocate_on_buffer (evaluated on recording contexts/buffers)
+    from ..peval import Interp, Obj as _Obj, Opaque as _Op, Builtin as _B, Sym as _Sym
+    from ..linear import Poly as _Poly
     f = m.func("typeutils::allocate_on_buffer")
-    fl = Flow(f)
     pn = param_names(f)
     cx.need(pn == ["size", "context", "buffer", "offset"], "allocate_on_buffer: unexpected signature")
-    raises = [r for r in own_nodes(f) if isinstance(r, ast.Raise)]
-    effects = [c for c in own_nodes(f) if isinstance(c, ast.Call) and call_name(c) in ("new_buffer", "allocate")]
-    cx.need(len(effects) >= 2, "allocate_on_buffer: effects (new_buffer / allocate) not found")
+    SIZE = _Sym(_Poly.atom("size"))
+    USER = _Sym(_Poly.atom("user_offset"))
 
-    def conds(r):
-        return {c.text() for c in fl.conds_at(r) if c.kind == "if"}
+    def world():
+        I = Interp(m)
+        log = []
 
-    r1 = [r for r in raises if {"buffer is None", "offset is not None"} <= conds(r)]
-    nb = [c for c in effects if call_name(c) == "new_buffer"]
-    ok = len(r1) == 1 and all(fl.ordered_before(r1[0], c) or fl.dominates(r1[0], c) for c in nb)
-    cx.check(ok, r1[0] if r1 else f, construct="offset given without buffer -> raise, before context.new_buffer", detail="explicit offset without a buffer is refused before a buffer is created",
-             bad_detail="no raise under (buffer is None and offset is not None) precedes the creation of a new buffer")
-    r2 = [r for r in raises if any("buffer.context is not context" in t or "buffer.context != context" in t for t in conds(r)) and any("context is not None" in t for t in conds(r))]
-    al = [c for c in effects if call_name(c) == "allocate"]
-    ok = len(r2) == 1 and all(fl.ordered_before(r2[0], c) for c in al)
-    cx.check(ok, r2[0] if r2 else f, construct="buffer of another context -> raise, before buffer.allocate", detail="a buffer that belongs to a different context is refused before anything is allocated on it",
-             bad_detail="no raise under (buffer.context is not context and context is not None) precedes buffer.allocate")
-    # explicit offsets are used as given
-    ret = [r for r in own_nodes(f) if isinstance(r, ast.Return)]
-    cx.check(len(ret) == 1 and norm(ret[0].value) == "(buffer, offset)", ret[0] if ret else f, construct="return buffer, offset", detail="placement is what was decided", bad_detail="allocate_on_buffer does not return (buffer, offset)", sub="ret")
-    offs = Defs(f).defs_of("offset")
-    vals = sorted(norm(v) for v, _ in offs)
-    cx.check(vals == ["buffer.allocate(size)", "buffer.allocate(size, align=False)", "buffer.allocate(size, align=True)"], offs[0][1] if offs else f, construct=f"offset := {vals}",
-             detail="default/aligned/packed placements allocate exactly `size` bytes", bad_detail="placement modes do not allocate `size` bytes with the documented alignment flags", sub="modes")
-    for v, st in offs:
-        want = {"buffer.allocate(size)": "offset is None", "buffer.allocate(size, align=True)": "offset == 'aligned'", "buffer.allocate(size, align=False)": "offset == 'packed'"}.get(norm(v))
-        if want:
-            cx.check(any(c.text() == want for c in fl.conds_at(st)), st, construct=f"{norm(v)} when {want}", detail="mode keyword selects the alignment", bad_detail=f"{norm(v)} is not selected by `{want}`", sub="modes")
+        def mkbuf(ctx, tag):
+            b_ = _Obj("instance", {"context": ctx}, name=tag)
+
+            def allocate(*a, **k):
+                sz = a[0] if a else k.get("size")
+                al = a[1] if len(a) > 1 else k.get("align", k.get("alignment", "default"))
+                log.append(("allocate", b_, sz, al))
+                return _Sym(_Poly.atom(f"alloc{len(log)}"))
+
+            b_.attrs["allocate"] = _B("buffer.allocate", allocate)
+            return b_
+
+        def mkctx(tag):
+            c_ = _Obj("instance", {}, name=tag)
+
+            def new_buffer(*a, **k):
+                sz = a[0] if a else k.get("capacity", k.get("size"))
+                nb_ = mkbuf(c_, f"newbuf@{tag}")
+                log.append(("new_buffer", c_, sz, nb_))
+                return nb_
+
+            c_.attrs["new_buffer"] = _B("context.new_buffer", new_buffer)
+            return c_
+
+        cd, ca, cb = mkctx("default"), mkctx("A"), mkctx("B")
+        I.modglobals.setdefault("typeutils", {})["context_default"] = cd
+        return I, log, cd, ca, cb, mkbuf
+
+    def run(ctx_sel, buf_sel, offset):
+        I, log, cd, ca, cb, mkbuf = world()
+        ctx = {"none": None, "A": ca, "B": cb}[ctx_sel]
+        buf = None if buf_sel == "none" else mkbuf(ca, "bufOfA")
+        fv = I.global_lookup("typeutils", "allocate_on_buffer")
+        res = I.explore(lambda: I.call(fv, [SIZE], {"context": ctx, "buffer": buf, "offset": offset}), max_paths=8)
+        cx.recog(len(res) == 1, f, f"allocate_on_buffer(context={ctx_sel}, buffer={buf_sel}, offset={offset!r}): {len(res)} paths")
+        return res[0], log, cd, ca, cb, buf
+
+    ncase = 0
+    for off in (7, "aligned", "packed", USER):
+        r, log, *_ = run("A", "none", off)
+        ncase += 1
+        cx.check(r["exc"] is not None and not log, None, construct=f"allocate_on_buffer(size, context, buffer=None, offset={off!r})", detail="explicit offset without a buffer is refused before a buffer is created",
+                 bad_detail=("an offset without a buffer is accepted" if r["exc"] is None else "a buffer is created / space allocated before the refusal"), anchor="typeutils::allocate_on_buffer")
+    for off in (None, "aligned", "packed", USER):
+        r, log, *_ = run("B", "bufOfA", off)
+        ncase += 1
+        cx.check(r["exc"] is not None and not log, None, construct=f"allocate_on_buffer(size, context=B, buffer of context A, offset={off!r})", detail="a buffer that belongs to a different context is refused before anything is allocated on it",
+                 bad_detail=("a buffer of another context is accepted" if r["exc"] is None else "space is allocated before the refusal"), anchor="typeutils::allocate_on_buffer")
+    WANT_AL = {None: ("default", True), "aligned": (True,), "packed": (False,)}
+    for ctx_sel in ("none", "A"):
+        for off in (None, "aligned", "packed", USER):
+            r, log, cd, ca, cb, buf = run(ctx_sel, "bufOfA", off)
+            ncase += 1
+            why = ""
+            if r["exc"] is not None:
+                why = f"refused with {r['exc'].etype}"
+            else:
+                rb, ro = r["result"] if isinstance(r["result"], tuple) and len(r["result"]) == 2 else (None, None)
+                if rb is not buf:
+                    why = "does not return the given buffer"
+                elif off is USER:
+                    if log or ro is not USER and ro != USER:
+                        why = f"an explicit offset is not used as given (effects {[(x[0], x[2:]) for x in log]}, returned {ro!r})"
+                else:
+                    al = [x for x in log if x[0] == "allocate"]
+                    if len(al) != 1 or len(log) != 1 or al[0][1] is not buf or al[0][2] != SIZE or al[0][3] not in WANT_AL[off] or ro is None or repr(ro) != f"alloc1":
+                        why = f"placement mode {off!r}: effects {[(x[0], x[2:]) for x in log]}, returned offset {ro!r}; needed one allocate(size{'' if off is None else ', align=' + str(WANT_AL[off][0])}) on the given buffer and its result"
+            cx.check(not why, None, construct=f"allocate_on_buffer(size, context={'None' if ctx_sel == 'none' else 'A'}, buffer of A, offset={off!r})", detail="default/aligned/packed placements allocate exactly `size` bytes; an explicit offset is used as given",
+                     bad_detail=why, anchor="typeutils::allocate_on_buffer", sub="modes")
+    for ctx_sel in ("none", "A"):
+        r, log, cd, ca, cb, buf = run(ctx_sel, "none", None)
+        ncase += 1
+        wantc = cd if ctx_sel == "none" else ca
+        why = ""
+        if r["exc"] is not None:
+            why = f"refused with {r['exc'].etype}"
+        else:
+            nbs = [x for x in log if x[0] == "new_buffer"]
+            als = [x for x in log if x[0] == "allocate"]
+            rb, ro = r["result"] if isinstance(r["result"], tuple) and len(r["result"]) == 2 else (None, None)
+            if len(nbs) != 1 or nbs[0][1] is not wantc:
+                why = f"no single new buffer on the {'default' if ctx_sel == 'none' else 'given'} context"
+            elif len(als) != 1 or als[0][1] is not nbs[0][3] or als[0][2] != SIZE or log.index(nbs[0]) > log.index(als[0]):
+                why = "the new buffer is not the one `size` bytes are allocated on"
+            elif rb is not nbs[0][3] or repr(ro) != "alloc2":
+                why = f"returns {rb!r}, {ro!r}, not the new buffer and the allocated position"
+        cx.check(not why, None, construct=f"allocate_on_buffer(size, context={'None' if ctx_sel == 'none' else 'A'}, buffer=None): new buffer on the context, allocate(size) on it", detail="fresh buffer, then the allocation",
+                 bad_detail=why, anchor="typeutils::allocate_on_buffer", sub="modes")
+    cx.need(ncase >= 18, f"only {ncase} allocate_on_buffer cases")
     # ---- Array._update: length comparison, both arms of the mismatch raise
     f = m.func("array::Array._update")
     fl = Flow(f)
@@ -312,6 +381,11 @@ def r10(cx):
         base = norm(ups[0].func.value)
         cx.check(base in ("self.__get__(instance)", "self[index]"), ups[0], construct=f"{base}._update(value)", detail="update acts on the located element", bad_detail="in-place update is not applied to the located element", sub="dispatch")
         cx.check(norm(wrs[0].args[0]) in ("instance._buffer", "self._buffer") and norm(wrs[0].args[1]) == "offset" and norm(wrs[0].args[2]) == "value", wrs[0], construct=short(wrs[0]), detail="value written at the located offset of the same buffer", bad_detail="write does not target (own buffer, located offset, value)", sub="dispatch")
+
+
+@rule("R10r", ["C10", "C06"], "cached part offsets of a kept handle are re-read from the buffer after every rewrite that can move parts")
+def r10r(cx):
+    m = cx.m
     # R3: cached part offsets are re-read from the buffer after every rewrite that can move parts
     au = m.func("array::Array._update")
     fl = Flow(au)
@@ -363,20 +437,104 @@ def r10(cx):
 @rule("R09", ["C09"], "constructors allocate before writing and write into that fresh allocation")
 def r09(cx):
     m = cx.m
+    # evaluated: each constructor is run on the abstract memory; it must allocate exactly once, the planned size, before
+    # anything is written, write only inside that allocation, and leave the new object viewing it -- also when the value
+    # is an existing object living elsewhere (the copy goes to the fresh allocation, never to the source's location)
+    from .layout import Lab, pol
+    from ..peval import Opaque as _Op, Sym as _Sym, PyExc as _PyExc
+    from ..linear import Poly as _Poly
     for spec in ("struct::Struct.__init__", "array::Array.__init__", "ref::UnionRef.__init__", "string::String.__init__"):
-        f = m.func(spec)
-        fl = Flow(f)
-        al = [s for s in own_nodes(f) if isinstance(s, ast.Assign) and isinstance(s.value, ast.Call) and call_name(s.value) == "allocate_on_buffer"]
-        cx.need(len(al) == 1, f"{spec}: allocate_on_buffer not found")
-        ok_t = norm(al[0].targets[0]) == "(self._buffer, self._offset)"
-        a = al[0].value.args
-        ok_a = len(a) == 4 and [norm(x) for x in a[1:]] == ["_context", "_buffer", "_offset"] and norm(a[0]) in ("info.size", "size", "cls._size")
-        wr = [c for c in own_nodes(f) if isinstance(c, ast.Call) and call_name(c) == "_to_buffer"]
-        cx.need(len(wr) == 1, f"{spec}: serialisation call not found")
-        ok_w = [norm(x) for x in wr[0].args[:2]] == ["self._buffer", "self._offset"] and fl.ordered_before(al[0], wr[0])
-        cx.check(ok_t and ok_a and ok_w, al[0], construct=f"{spec.split('::')[1]}: (self._buffer, self._offset) = allocate_on_buffer({norm(a[0])}, ...) ; _to_buffer(self._buffer, self._offset, ...)",
-                 detail="the planned size is allocated and the object is written into that allocation (never at the source object's location)",
-                 bad_detail="the constructor does not write into a fresh allocation of the planned size")
+        m.func(spec)
+    lab = Lab(m)
+    I, W = lab.I, lab.W
+    sc = I.global_lookup("scalar", "Float64")
+    SRC = _Poly.atom("srcpos")
+
+    def mk(kind):
+        if kind.startswith("struct"):
+            T = lab.struct("T", [("a", sc), ("b", sc)])
+            if kind == "struct<-object":
+                other = W.mk_buffer("other")
+                src = I.call(I.getattr(T, "_from_buffer"), [other, _Sym(SRC)], {})
+                return I.call(T, [src], {"_buffer": W.buffer}), 16
+            return I.call(T, [], {"a": _Op("va"), "_buffer": W.buffer}), 16
+        if kind == "array":
+            A = lab.array("A", [None], (0,), sc)
+            return I.call(A, [[_Op("x0"), _Op("x1"), _Op("x2")]], {"_buffer": W.buffer}), 16 + 8 * 3
+        if kind == "array(n)":
+            A = lab.array("A", [None], (0,), sc)
+            return I.call(A, [5], {"_buffer": W.buffer}), 16 + 8 * 5
+        if kind == "string":
+            S = I.global_lookup("string", "String")
+            return I.call(S, ["abcdefghi"], {"_buffer": W.buffer}), 24
+        if kind == "union":
+            T = lab.struct("T", [("a", sc)])
+            MU = I.global_lookup("ref", "MetaUnionRef")
+            U0 = I.global_lookup("ref", "UnionRef")
+            U = I.call(I.class_attrs(MU)["__new__"], [MU, "U", (U0,), {"_reftypes": (T,)}], {})
+            return I.call(U, [], {"_buffer": W.buffer}), 16
+        raise AssertionError(kind)
+
+    WR = ("write", "write_array", "child_write", "update_from_buffer", "update_from_xbuffer", "update_from_nplike", "update_from_native", "view_update")
+
+    def extent(e):
+        if e.kind == "write":
+            return e.pos, e.n
+        if e.kind == "write_array":
+            return e.pos, e.n * e.count
+        if e.kind == "child_write":
+            return e.pos, e.size
+        if e.kind == "update_from_buffer":
+            return e.args[0], len(e.args[1]) if isinstance(e.args[1], (bytes, bytearray)) else None
+        if e.kind in ("update_from_xbuffer", "update_from_native"):
+            return e.args[0], e.args[3] if len(e.args) > 3 else None
+        return (e.args[0] if getattr(e, "args", None) else None), None
+
+    ncons = 0
+    for kind in ("struct", "struct<-object", "array", "array(n)", "string", "union"):
+        res = I.explore(lambda: mk(kind), max_paths=16)
+        owner = {"struct": "struct::Struct.__init__", "struct<-object": "struct::Struct.__init__", "array": "array::Array.__init__", "array(n)": "array::Array.__init__", "string": "string::String.__init__", "union": "ref::UnionRef.__init__"}[kind]
+        cx.recog(bool(res) and all(r["exc"] is None for r in res), m.func(owner), f"constructor evaluation ({kind}) raises {[r['exc'].etype for r in res if r['exc']][:1]}")
+        for r in res:
+            ncons += 1
+            obj, want = r["result"]
+            effs = r["effects"]
+            allocs = [e for e in effs if e.kind == "alloc"]
+            why = ""
+            if len(allocs) != 1:
+                why = f"{len(allocs)} allocations"
+            else:
+                al = allocs[0]
+                k0 = effs.index(al)
+                if any(e.kind in WR for e in effs[:k0]):
+                    why = "something is written before the allocation"
+                elif pol(al.size) != _Poly.const(want):
+                    why = f"allocates {al.size!r} bytes, the value needs {want}"
+                elif obj.attrs.get("_buffer") is not al.buf or pol(obj.attrs.get("_offset")) != pol(al.pos):
+                    why = f"the new object views {obj.attrs.get('_buffer')!r}+{obj.attrs.get('_offset')!r}, not the allocation {al.buf!r}+{al.pos!r}"
+                else:
+                    nw = 0
+                    for e in effs[k0 + 1:]:
+                        if e.kind not in WR:
+                            continue
+                        nw += 1
+                        pos, nb = extent(e)
+                        if getattr(e, "buf", None) is not al.buf:
+                            why = f"{e.kind} goes to {getattr(e, 'buf', None)!r}, not to the buffer of the allocation"
+                            break
+                        d = pol(pos) - pol(al.pos) if pos is not None else None
+                        if d is None or not d.is_const() or nb is None or not pol(nb).is_const():
+                            why = f"{e.kind} at {pos!r} (+{nb!r}) is not at a fixed place inside the allocation"
+                            break
+                        lo, hi = d.const_value(), d.const_value() + pol(nb).const_value()
+                        if lo < 0 or hi > want:
+                            why = f"{e.kind} covers [{lo}, {hi}) of a {want}-byte allocation"
+                            break
+                    if not why and nw == 0:
+                        why = "nothing is written into the allocation"
+            cx.check(not why, None, construct=f"{owner.split('::')[1]} ({kind}): one allocation of {want} bytes, then every write inside it, object views it", detail="the planned size is allocated and the object is written into that allocation (never at the source object's location)",
+                     bad_detail=f"the constructor does not write into a fresh allocation of the planned size: {why}", anchor=owner)
+    cx.need(ncons >= 6, f"only {ncons} constructor evaluations")
     sb = m.func("struct::Struct._to_buffer")
     fl = Flow(sb)
     loops = [l for l in own_nodes(sb) if isinstance(l, ast.For) and norm(l.iter) == "cls._fields"]
